@@ -1,7 +1,7 @@
-\* exhaustive: assemblies of 2 blocks, first block over all 2 x 6 x 4 configurations, k in -7..7, act/prev part of the state
-CONSTANTS K = 7  H = 3  NB = 2  Layouts = {"p1", "p7", "p19", "singles", "mixed", "nogrid"}  MaxLevel = 3
+\* exhaustive: assemblies of 2 blocks (pairs p1+p7, p19+singles, mixed+nogrid, both orientations), k in -7..7; act/prev part of the state
+CONSTANTS K = 7  H = 3  NB = 2  Layouts = {"p1", "p19", "mixed"}  TieDi = TRUE  MaxLevel = 3
 INIT Init
-NEXT Next
+NEXT NextB
 CONSTRAINT Bound
 INVARIANT TypeOK
 INVARIANT ShapeKept
